@@ -7,7 +7,7 @@ From Coq Require Import ZArith List Bool.
 From stdpp Require Import gmap.
 From VF Require Import Base.Corr Base.SetSum Model.Partition Model.PartitionInv
   Model.Deadline Model.DeadlineInv Proofs.Partition_base Proofs.Partition_lemmas
-  Proofs.Deadline_lemmas.
+  Proofs.Deadline_lemmas Proofs.Deadline_c02b.
 Import ListNotations.
 Open Scope Z_scope.
 
@@ -100,6 +100,11 @@ Theorem C04_deadlineinv_reachable : forall unit off psize ops,
   DsInv (drun (dinit unit off psize) ops).
 Proof. exact dsinv_reachable. Qed.
 
+(* Deadline::validate_state can never fail on a reachable deadline *)
+Theorem C04_deadline_validate_state_redundant : forall qs tbl d,
+  DeadlineInv qs tbl d -> dl_validate d = true.
+Proof. exact dl_validate_redundant. Qed.
+
 Theorem C04_sector_in_exactly_one_partition : forall qs tbl d n,
   DeadlineInv qs tbl d -> n ∈ dl_sectors d ->
   exists i p, parts d !! i = Some p /\ n ∈ sectors p /\
@@ -147,16 +152,17 @@ Example C04_nonvacuous_inv : StInv (run (init 4 1) ex_ops).
 Proof. apply partinv_reachable; [reflexivity|]. apply all_wf_b_sound. vm_compute. reflexivity. Qed.
 
 (* ---- non-vacuity at deadline level: two partitions, a PoSt with a skipped sector, a declared
-   fault, a termination, early-termination processing and a compaction, all accepted ---- *)
+   recovery, a termination, early-termination processing and a compaction, all accepted; a second
+   allocation of an allocated number is refused ---- *)
 Definition ex_dsecs := [ex_mk 1%N 20 50 1000 3; ex_mk 2%N 30 51 1001 4; ex_mk 3%N 70 52 1002 5].
 Definition ex_dops :=
-  [DAllocate [1; 2; 3]%N false; DAddSectors false ex_dsecs; DRecordProven 40 [(0%N, [2]%N); (1%N, [])];
-   DProcessDeadlineEnd 44; DRecordFaults 48 [(1%N, [3]%N)]; DTerminate 9 [(0%N, [1]%N)];
+  [DAllocate [1; 2; 3]%N false; DAddSectors false ex_dsecs; DRecordProven 40 [(0%N, []); (1%N, [3]%N)];
+   DProcessDeadlineEnd 44; DDeclareRecovered [(1%N, [3]%N)]; DTerminate 9 [(0%N, [1]%N)];
    DPopEarly 10 10; DCompact [0]%N; DAllocate [2]%N false].
 Example C04_deadline_nonvacuous :
   let st := drun (dinit 4 1 2) ex_dops in
   map (fun k => snd (fst (dstep (drun (dinit 4 1 2) (firstn k ex_dops)) (nth k ex_dops (DPopEarly 0 0)))))
       (seq 0 9) = [0; 0; 0; 0; 0; 0; 0; 0; 16] /\
-  length (parts (ds_dl st)) = 2%nat /\ dl_live_sectors (ds_dl st) = 2 /\
+  length (parts (ds_dl st)) = 1%nat /\ dl_live_sectors (ds_dl st) = 2 /\
   dl_total_sectors (ds_dl st) = 2 /\ sorted (ds_alloc st) = [1; 2; 3]%N.
 Proof. vm_compute. repeat split. Qed.
